@@ -160,10 +160,20 @@ def parseFields (inp : List Char) : Outcome Fields :=
               .ok { squares := sq, player, rights, ep, halfmove := hm.getD 0,
                     plies := pliesFromFullmove (fm.getD 1) player }
 
+/-- men of one colour on a mailbox -/
+def menOf (sq : Vector (Option Piece) 64) (pl : Player) : Nat :=
+  ((List.finRange 64).filter fun (s : Fin 64) => (sq[s.val]).any (fun pc => pc.player == pl)).length
+
+/-- more than sixteen men of one colour: not a position; the reader reports it as an error (after the `fix:` —
+    before it such a board overflowed the evaluation accumulators built by `Game::from_state`) -/
+def tooManyMen (sq : Vector (Option Piece) 64) : Bool := menOf sq .white > 16 || menOf sq .black > 16
+
 /-- `fen::parse` -/
 def parse (c : Cfg) (s : String) : Outcome Game :=
   match parseFields s.toList with
-  | .ok f => .ok (Game.fromState c (Board.ofSquares f.squares) f.player f.rights f.ep f.halfmove f.plies)
+  | .ok f =>
+    if tooManyMen f.squares then .err
+    else .ok (Game.fromState c (Board.ofSquares f.squares) f.player f.rights f.ep f.halfmove f.plies)
   | .err => .err
   | .panic => .panic
 
